@@ -481,11 +481,13 @@ def draw_tree(rng):
                 grp = {'results': {}, 'aniso': None, 'aniso_by_result': {}}
                 top = rng.choice([None, 1, 2, 4])
                 grp['aniso'] = top
+                # reaction ids are arbitrary strings: a few lower-case ones (they come after
+                # 'nbAnisotropy' in h5py's iteration order)
                 for rnam in rng.sample(['Absorption', 'Fission', 'NuFission', 'Total', 'Diffusion', 'Nexcess',
-                                        'MultigroupSpectrum'], rng.randint(1, 5)):
+                                        'MultigroupSpectrum', 'scattering', 'transfer'], rng.randint(1, 6)):
                     if rnam == 'MultigroupSpectrum':
                         size = ngr * rng.choice([1, 2, 3])
-                    elif rnam == 'Diffusion' and (top or per_result_info):
+                    elif rnam in ('Diffusion', 'scattering') and (top or per_result_info):
                         nan = top or 1
                         if per_result_info and rng.random() < 0.7:
                             nan = rng.choice([1, 2, 3])
